@@ -40,7 +40,8 @@ repeat earlier ones (C07-f = C07-e, C14-f = C14-e), as do some of round 4 (C02-i
 C14-h = C14-e, C11-h = C08-c seen from C11, C09-i and C17-h close to C09-f and C17-e/f): independent
 testers keep finding the same weak spots, which is itself information (round 7 again: C07-n = C07-l, C07-p = C07-k,
 C14-n = C14-l, C17-p = C17-l, C01-p is the fault class of C11-l on another slice; round 8: C05-q and C04-q
-are the same line seen from two properties, C07-r is the fault class of C06-b / C01-p on the GROUP BY lists). Retired (kept under
+are the same line seen from two properties, C07-r is the fault class of C06-b / C01-p on the GROUP BY lists; round 9: C14-s = C04-s, C10-s and C11-s are the
+two halves of one soft-delete regrouping, C15-s and C01-s sit on adjacent lines of Pluck). Retired (kept under
 `/verif/retired/`, not part of the matrix): {', '.join(retired) or 'none'} - a change whose effect disappeared when
 the defect found through it was repaired in gorm (its meta.json says how it was caught on the tree before the repair).
 
@@ -115,7 +116,10 @@ What the misses had in common, and what was done about the pattern rather than t
   belongs-to record held by several elements of a slice argument (C13-s); Pluck behind a Select of several columns
   (C15-s); a one-element list in a map condition of FirstOrInit / FirstOrCreate (C16-s); a Connection block under an
   ended context (C18-s); the dry run of a write gorm refuses for lack of a condition (C19-s); the check tag of a
-  shadowed embedded field (C20-s)ROUND9_EXTRA.
+  shadowed embedded field (C20-s); Begin called on a chain value (C06-s); one serializer instance behind every pooled scan
+  value (C07-s); Row() inside a transaction on a statement cached outside it, delivered by two testers (C04-s = C14-s);
+  After(a).Before(b) in that order (C17-s). Nine of the twenty were caught at once, among them all four of the
+  concurrency and pipeline properties (C06, C07, C14, C17).
 * **Rounds 4 and 5, same five patterns, further out.** Second use: a handle derived from a chain that
   stays in use (C06-k), FindInBatches run from a handle (C06-j), a second Raw on a chain value, a handle per
   goroutine (C07-j), a record reachable twice in one Create (C13-h). Error paths: zero-row statements whose
